@@ -97,8 +97,23 @@ def dependent_ann(draw, knames, kinds=None):
 @st.composite
 def any_ann(draw, knames, p_dep=0.3, depth=1):
     if draw(st.floats(0, 1)) < p_dep:
+        if draw(st.integers(0, 7)) == 0:
+            return draw(nested_mixed_ann(knames))
         return draw(dependent_ann(knames))
     return draw(static_ann(knames, depth))
+
+
+@st.composite
+def nested_mixed_ann(draw, knames):
+    """& / | combinations, up to depth 2, whose members mix classes and value-dependent types of different bounds"""
+    simple_dep = dependent_ann(knames, kinds=["dep"] * 3 + ["lit"] * 3 + ["startswith", "endswith", "haskey"])
+    leaf = st.one_of(simple_dep, simple_dep, st.sampled_from([["cls", n] for n in list(knames)[:3]] + [["cls", "int"], ["cls", "str"]]))
+    inner = st.tuples(st.sampled_from(["union", "inter"]), st.lists(leaf, min_size=2, max_size=2, unique_by=repr)).map(list)
+    op = draw(st.sampled_from(["union", "inter"]))
+    members = draw(st.lists(st.one_of(leaf, inner), min_size=2, max_size=3, unique_by=repr))
+    if not any(S.is_dependent_spec(m) for m in members):
+        members[0] = draw(simple_dep)
+    return [op, members]
 
 
 @st.composite
